@@ -118,11 +118,31 @@ def gen_q_ops(rng, depth=0):
     return q
 
 
+Double = None
+
+
+def project_expression():
+    """a deconstructible expression class that lives outside django.db.models (module level, so that
+    Django's deconstruct() accepts it)"""
+    global Double
+    if Double is None:
+        from django.db.models import Func
+
+        class Double(Func):
+            function = 'DOUBLE'
+        Double.__module__ = __name__
+        Double.__qualname__ = 'Double'
+        globals()['Double'] = Double
+    return Double
+
+
 def gen_expr_wide(rng, depth=0):
-    """expressions beyond + - *: other connectors and database functions"""
+    """expressions beyond + - *: other connectors, database functions, project-defined classes"""
     from django.db.models import F, Value
     from django.db.models.functions import Lower, Upper
     r = rng.random()
+    if r < 0.08:
+        return project_expression()(F(rng.choice(['a', 'b'])))
     if r < 0.35:
         return gen_expr(rng, depth)
     if r < 0.5:
